@@ -710,11 +710,7 @@ func (w *c19World) step(act c19Action, faultAt int, faultErr error) {
 				w.fail(fmt.Sprintf("S5/sso/%s-saml-response/registered=%v/auth=%v", cls, registered, auth), fmt.Sprintf("SAMLResponse present=%v, the reference model predicts %v (registered=%v authenticated=%v) (%s)", rep.hasForm, wantForm, registered, auth, desc), map[string]any{"status": rep.code, "body": string(trunc(rep.body, 1200))})
 				return
 			}
-			if !registered {
-				expectStatus(rep, 400)
-			} else {
-				expectStatus(rep, 200)
-			}
+			// which reply a request gets that obtains no assertion (login page or an error status) is not the property's business
 			if rep.setSess != "" && user != "" {
 				_, prof := storeCredsOK(user, pw, snap)
 				m.sessions[rep.setSess] = &c19MSession{profile: prof, expire: w.now.Add(time.Hour)}
@@ -791,16 +787,7 @@ func (w *c19World) step(act c19Action, faultAt int, faultErr error) {
 				w.fail(fmt.Sprintf("S5/shortcut/%s-saml-response/shortcut=%v/auth=%v/registered=%v", cls, have, auth, registered), fmt.Sprintf("SAMLResponse present=%v, model predicts %v (%s)", rep.hasForm, wantForm, desc), map[string]any{"status": rep.code, "body": string(trunc(rep.body, 1200))})
 				return
 			}
-			switch {
-			case !have:
-				expectStatus(rep, 500)
-			case !auth:
-				expectStatus(rep, 200)
-			case !registered:
-				expectStatus(rep, 404)
-			default:
-				expectStatus(rep, 200)
-			}
+			// which reply a request gets that obtains no assertion (login page, 404, 500 ...) is not the property's business
 		}
 		observe(rep, "")
 	case "delSession":
